@@ -140,6 +140,15 @@ def check_sec(items, txt, ctx, rep, pytrs):
                           f"descending range present={desc} but "
                           f"non-sequential warning present={ns} "
                           f"(w_flags {d.w_flags})", dedup=str(desc))
+        # The same list in the desc-Sec-Twp/Rge layout.
+        full2 = f"NE/4 of {txt}, T154N-R97W"
+        d2 = pytrs.PLSSDesc(full2)
+        got3 = [t.sec for t in d2.tracts]
+        if got3 != e or {t.desc for t in d2.tracts} != {'NE/4'}:
+            ctx.violation('tract-sections-desc_STR', case,
+                          f"PLSSDesc({full2!r}) sections {got3} descs "
+                          f"{sorted({t.desc for t in d2.tracts})}, expected "
+                          f"{e} all 'NE/4'", dedup='plss2')
 
 
 def check_lot(items, txt, ctx, rep, pytrs):
@@ -169,6 +178,13 @@ def check_lot(items, txt, ctx, rep, pytrs):
                           f"descending range present={desc} but "
                           f"non-sequential warning present={ns} "
                           f"(w_flags {t.w_flags})", dedup=str(desc))
+        # The same lot list inside a full description.
+        d = pytrs.PLSSDesc(f"T154N-R97W Sec 14: {txt}", parse_qq=True)
+        if len(d.tracts) != 1 or d.tracts[0].lots != e:
+            ctx.violation('lots-in-description', case,
+                          f"PLSSDesc('T154N-R97W Sec 14: {txt}') lots "
+                          f"{[x.lots for x in d.tracts]}, expected {e}",
+                          dedup='lots2')
 
 
 class UnpackBroken(Exception):
